@@ -118,6 +118,25 @@ decreasing_by exact next_size st r st' h
 /-- `expr.memory_references().collect()`: the iterator is created with `stack: vec![self]` (memory.rs:219). -/
 def memoryReferences (e : Expr K) : List MemRef := drain [e]
 
+/-- `j` calls of `next` (what `advance_by(j)` / the first `j` steps of any adaptor do): the items yielded and
+the iterator's state afterwards.  Every mid-iteration state of the real iterator is `(nextN j [e]).2`. -/
+def nextN : Nat → List (Expr K) → List MemRef × List (Expr K)
+  | 0, st => ([], st)
+  | j + 1, st =>
+    match next st with
+    | (some r, st') => (r :: (nextN j st').1, (nextN j st').2)
+    | (none, st') => ([], st')
+
+/-- std's default `Iterator::fold` (`while let Some(x) = self.next() { acc = f(acc, x) }`) — and therefore
+`for_each`, `count`, `last`, `sum`, `max*`/`min*`/`reduce` (one `next` + `fold`) — run on the stack machine
+from an arbitrary state. -/
+def foldFrom {β : Type} (f : β → MemRef → β) (init : β) (st : List (Expr K)) : β :=
+  match h : next st with
+  | (some r, st') => foldFrom f (f init r) st'
+  | (none, _) => init
+termination_by stackSize st
+decreasing_by exact next_size st r st' h
+
 /-! ### `HashMap`s as association lists -/
 
 /-- `&HashMap<_, Complex64>` / `&HashMap<_, Vec<f64>>` / `&HashMap<_, Expression>` → the partial function -/
